@@ -138,13 +138,23 @@ impl<'tcx> Ex<'tcx> {
                         ftys.join(",")
                     ));
                 }
+                // field offsets of monomorphic structs (constants of struct type are exported as raw bytes)
+                let mut lay = String::new();
+                if def.is_struct() && !ty.has_param() && !ty.has_infer() && !ty.has_aliases() {
+                    if let Ok(l) = tcx.layout_of(TypingEnv::fully_monomorphized().as_query_input(ty)) {
+                        let n = def.non_enum_variant().fields.len();
+                        let offs: Vec<String> = (0..n).map(|i| l.fields.offset(i).bytes().to_string()).collect();
+                        lay = format!(",\"offs\":[{}],\"size\":{}", offs.join(","), l.size.bytes());
+                    }
+                }
                 format!(
-                    "{{\"k\":\"adt\",\"path\":{},\"local\":{},\"enum\":{},\"targs\":[{}],\"variants\":[{}]}}",
+                    "{{\"k\":\"adt\",\"path\":{},\"local\":{},\"enum\":{},\"targs\":[{}],\"variants\":[{}]{}}}",
                     esc(&tcx.def_path_str(def.did())),
                     def.did().is_local(),
                     def.is_enum(),
                     targs.join(","),
-                    variants.join(",")
+                    variants.join(","),
+                    lay
                 )
             }
             ty::Closure(did, _) => format!(
